@@ -17,10 +17,11 @@ func init() {
 		ID:    "C07",
 		Title: "Stream framing is independent of how bytes are segmented",
 		Rule: "a scripted sender writes the concatenated encoding of up to 12 generated messages (all length-nibble classes, token lengths 0-8, ordinary and signalling codes, optionally one frame whose declared length exceeds the maximum incl. 32-bit extended-length boundary values); " +
-			"the tape cuts the stream into reads (single bytes, cuts inside headers, several frames per read) and picks the read-buffer size; non-trivial = at least one cut fell inside a frame header or one read carried more than one frame; distinct = distinct event-log hash",
+			"the tape cuts the stream into reads (single bytes, cuts inside headers, several frames per read) and picks the read-buffer size; in S-STREAM/library-sender two real connections exchange 1-4 requests and responses whose frame sizes sit around the length-encoding boundaries (13, 269, 65805), the simulator decodes the wire with its own codec and cuts it into reads; non-trivial = at least one cut fell inside a frame header or one read carried more than one frame; distinct = distinct event-log hash",
 		Scenarios: []Scenario{
 			{Name: "S-STREAM/plain", Weight: 3, Run: func(e *Env) { c07Run(e, false) }},
 			{Name: "S-STREAM/tls-shim", Weight: 1, Run: func(e *Env) { c07Run(e, true) }},
+			{Name: "S-STREAM/library-sender", Weight: 2, Run: c07SenderRun},
 		},
 		Quick:    150000,
 		Thorough: 8000000,
